@@ -20,7 +20,11 @@ def opDiplotype (j : Json) : Except String Json := do
   let names := copies.map fun c => majorName c.1 (sortStable addedLt c.2)
   let I : DipIn := { majors := copies.map (·.1), names := names, delAllele := del, tandems := tandems }
   let d := estimateDiplotype I
+  -- hypothesis of `diplotype_two_order_independent` (Props/C11Order): different names, different natural-sort keys
+  let keysDistinct := names.all fun x => names.all fun y =>
+    x == y || keyLt (natKey x) (natKey y) || keyLt (natKey y) (natKey x)
   pure (objJ [("names", listJ strJ names),
+              ("keys_distinct", boolJ keysDistinct),
               ("diplotype", listJ (listJ intJ) d),
               ("text", strJ (renderDiplotype I d))])
 
